@@ -539,8 +539,10 @@ Proof.
       split.
       { constructor.
         - simpl. change (get s0 i) with (get s i). split; [exact Hto| exact Hg].
-        - apply Forall_app; split; [apply no_fire_ok; exact N2| exact O3]. }
-      change (fire_ids (?e :: evs ++ evs')) with (fire_ids ([e] ++ evs ++ evs')).
+        - constructor; [exact I|].
+          apply Forall_app; split; [apply no_fire_ok; exact N2| exact O3]. }
+      match goal with |- context [fire_ids (?e :: ?e2 :: evs ++ evs')] =>
+        change (fire_ids (e :: e2 :: evs ++ evs')) with (fire_ids ([e] ++ [e2] ++ evs ++ evs')) end.
       rewrite !fire_ids_app, (no_fire_ids evs N2). simpl.
       split.
       { intros j [<-|Hj]; [left; reflexivity|]. right. apply Sub, I3, Hj. }
@@ -661,3 +663,31 @@ Qed.
 
 Theorem now_monotone_api s o : TI s -> now s <= now (fst (api s o)).
 Proof. intros T. apply api_frame; exact T. Qed.
+
+(* uv_timer_again: a repeating timer is re-armed relative to the current loop
+   time with the repeat value in force at that moment *)
+Theorem again_rearms s i c :
+  TI s -> (i < length (tms s))%nat ->
+  t_cb (get s i) = Some c -> t_repeat (get s i) <> 0 -> t_closing (get s i) = false ->
+  let s' := fst (timer_again s i) in
+  snd (timer_again s i) = 0 /\
+  t_active (get s' i) = true /\
+  t_timeout (get s' i) = clamp (now s) (t_repeat (get s i)) /\
+  t_repeat (get s' i) = t_repeat (get s i) /\
+  ~ In i (ready s').
+Proof.
+  intros T Hi Hcb Hr Hcl. unfold timer_again. rewrite Hcb.
+  destruct (Z.eqb_spec (t_repeat (get s i)) 0) as [E|_]; [contradiction|]. cbn [fst snd].
+  pose proof (TI_timer_stop s i T Hi) as T1.
+  destruct (timer_stop_effect s i T Hi) as (Ea & Hnr & Hnow & Hctr & Hlen & Hrd & Hfld & Hoth).
+  assert (Hi1 : (i < length (tms (timer_stop s i)))%nat) by lia.
+  destruct (Hfld i) as (_ & _ & _ & _ & Hclo & _).
+  assert (Hsnd : snd (timer_start (timer_stop s i) i (Some c) (t_repeat (get s i)) (t_repeat (get s i))) = 0).
+  { unfold timer_start. rewrite Hclo, Hcl. reflexivity. }
+  destruct (start_leaves_ready (timer_stop s i) i (Some c) (t_repeat (get s i)) (t_repeat (get s i)) T1 Hi1 Hsnd)
+    as (A & B & C).
+  split; [reflexivity|]. split; [exact B|]. split; [rewrite C, Hnow; reflexivity|]. split; [|exact A].
+  unfold timer_start. rewrite Hclo, Hcl. cbn [fst].
+  destruct (timer_stop_effect (timer_stop s i) i T1 Hi1) as (_ & _ & _ & _ & Hlen2 & _).
+  rewrite get_set_same by (cbn [tms]; lia). reflexivity.
+Qed.
